@@ -290,6 +290,8 @@ M: List[Tuple[str, str, str, str, str]] = [
     ('c11-generation-lock-leaked-on-failure', 'C11', 'proxy/http/proxy/server.py',
      "        with self.lock:\n            if not os.path.isfile(cert_file_path):\n                self.gen_ca_signed_certificate(cert_file_path, certificate)\n",
      "        self.lock.acquire()\n        if not os.path.isfile(cert_file_path):\n            self.gen_ca_signed_certificate(cert_file_path, certificate)\n        self.lock.release()\n"),
+    ('c05-cleanup-while-iterating-works', 'C05', 'proxy/core/work/threadless.py',
+     "                failed_work_ids.append(work_id)\n", "                failed_work_ids.append(work_id)\n                self._cleanup(work_id)\n"),
     # ---- endless loops (C06 / C05) -------------------------------------------------
     ('c06-revert-duplicate-content-length-fix', 'C06', 'proxy/http/parser/parser.py',
      "        if k == b'content-length':\n            # The last Content-Length line wins in self.headers,\n            # keep the flag in line with the value that will be used.\n            self._content_expected = int(value) > 0",
